@@ -310,9 +310,27 @@ def _angle_contains(res, g, s):
             res.violation(f"C16|AngleInterval.__init__|{_lenclass(st, en)}|raises:{type(e).__name__}", repr(e),
                           {"op": "actor", "st": st, "en": en})
             continue
+        # the same interval obtained by copying (shallow, deep, pickled, nested in a list) instead of constructing: it is the same set
+        import copy as _copy, pickle as _pickle
+        routes = [("constructed", ai)]
+        try:
+            routes += [("copy", _copy.copy(ai)), ("deepcopy", _copy.deepcopy(ai)), ("pickle", _pickle.loads(_pickle.dumps(ai))), ("deepcopy-in-list", _copy.deepcopy([ai])[0])]
+        except Exception as e:
+            res.violation(f"C16|AngleInterval.copy|raises:{type(e).__name__}", repr(e), {"op": "actor", "st": st, "en": en})
+        for rname, robj in routes[1:]:
+            if type(robj) is not type(ai) or robj.start != ai.start or robj.end != ai.end:
+                res.violation(f"C16|AngleInterval|route:{rname}|not-the-same-interval", f"[{st},{en}] -> {type(robj).__name__}[{robj.start},{robj.end}]", {"op": "actor", "st": st, "en": en})
         for th, tname in _queries(g):
             exp = _expect_angle(st, en, float(th))
             case = {"op": "acontains", "st": st, "en": en, "th": float(th), "tth": tname}
+            for rname, robj in routes[1:]:
+                if exp is not None and tname == "float":
+                    res.evals += 1; res.transitions += 1
+                    try:
+                        if bool(robj.contains(th)) != exp:
+                            res.violation(f"C16|AngleInterval.contains|route:{rname}|{'wrong-true' if not exp else 'wrong-false'}", f"copy of [{st},{en}] contains({th!r}) != {exp}", case)
+                    except Exception as e:
+                        res.violation(f"C16|AngleInterval.contains|route:{rname}|raises:{type(e).__name__}", repr(e), case)
             for meth in ("contains", "__contains__"):
                 res.evals += 1; res.transitions += 1
                 try:
